@@ -45,7 +45,8 @@ CONSTANTS
   Weak_NoFlushBeforeCommit,        \* BlockExecutor.Commit does not flush the mempool connection
   Weak_NoEndHeightRepair,          \* catchupReplay does not write a missing #ENDHEIGHT of the last committed block
   Weak_HandshakeAcceptsAppAhead,   \* ReplayBlocks: no "store < app" error case; store = state treats any app >= store as synced
-  Weak_EmptyStoreAcceptsAppAhead   \* ReplayBlocks: with an empty block store only the app hash is compared, not the heights
+  Weak_EmptyStoreAcceptsAppAhead,  \* ReplayBlocks: with an empty block store only the app hash is compared, not the heights
+  Weak_NoInitialHeightBase         \* ReplayBlocks compares the store with state.LastBlockHeight = 0 even when InitialHeight > 1
 
 Nil == "nil"
 
@@ -53,25 +54,33 @@ Nil == "nil"
 \* cfg = [maxh, txs (seq: #txs of block h), vu (seq of heights with validator updates),
 \*        pu (seq of heights with consensus-param updates), retain (seq: RetainHeight of Commit(h)),
 \*        hashc (BOOLEAN: the application hash covers the number of commits; FALSE = it only
-\*        changes with transactions, like kvstore's: empty blocks leave it where it was)]
+\*        changes with transactions, like kvstore's: empty blocks leave it where it was),
+\*        ih (genesis InitialHeight: the chain's first block has height ih; txs/vu/pu/retain are
+\*        indexed by BLOCK NUMBER 1, 2, ..., block number n has height ih - 1 + n; maxh is a height)]
+\* Heights: state.LastBlockHeight, the app height and the store height are 0 until the first block and
+\* jump to ih with it.
 InSeq(x, q)   == \E k \in DOMAIN q : q[k] = x
-NTxs(c, h)    == IF h \in DOMAIN c.txs THEN c.txs[h] ELSE 0
-HasVU(c, h)   == InSeq(h, c.vu)
-HasPU(c, h)   == InSeq(h, c.pu)
-Retain(c, h)  == IF h \in DOMAIN c.retain THEN c.retain[h] ELSE 0
+Idx(c, h)     == h - c.ih + 1                                  \* block number of height h
+NextH(c, h)   == IF h = 0 THEN c.ih ELSE h + 1                  \* the height after "last height h"
+NTxs(c, h)    == IF Idx(c, h) \in DOMAIN c.txs THEN c.txs[Idx(c, h)] ELSE 0
+HasVU(c, h)   == InSeq(Idx(c, h), c.vu)
+HasPU(c, h)   == InSeq(Idx(c, h), c.pu)
+Retain(c, h)  == IF Idx(c, h) \in DOMAIN c.retain /\ c.retain[Idx(c, h)] > 0 THEN c.retain[Idx(c, h)] + c.ih - 1 ELSE 0
 
 RECURSIVE SumTxs(_, _)
-SumTxs(c, h) == IF h <= 0 THEN 0 ELSE NTxs(c, h) + SumTxs(c, h - 1)
-\* the application hash after the chain's first h blocks: (number of commits, number of txs)
-HashAfter(c, h) == [c |-> IF c.hashc THEN h ELSE 0, t |-> SumTxs(c, h)]
+SumTxs(c, h) == IF h < c.ih THEN 0 ELSE NTxs(c, h) + SumTxs(c, h - 1)
+Commits(c, h) == IF h < c.ih THEN 0 ELSE h - c.ih + 1
+\* the application hash after the chain's blocks up to height h: (number of commits, number of txs)
+HashAfter(c, h) == [c |-> IF c.hashc THEN Commits(c, h) ELSE 0, t |-> SumTxs(c, h)]
 Hash0 == [c |-> 0, t |-> 0]
 \* the hash after one more Commit of a block with nd transactions
 NextHash(c, hash, nd) == [c |-> IF c.hashc THEN hash.c + 1 ELSE 0, t |-> hash.t + nd]
 \* sm.State after block h of the plan (what a data directory restored from a backup taken at h holds)
-MaxUpTo(q, h) == LET S == {q[k] : k \in DOMAIN q} \cap 0..h IN IF S = {} THEN 0 ELSE CHOOSE x \in S : \A y \in S : y <= x
+MaxUpTo(c, q, h) == LET S == {q[k] + c.ih - 1 : k \in DOMAIN q} \cap 0..h IN
+                    IF S = {} THEN 0 ELSE CHOOSE x \in S : \A y \in S : y <= x
 StateAfter(c, h) == [h |-> h, hash |-> HashAfter(c, h),
-                     lhvc |-> IF MaxUpTo(c.vu, h) = 0 THEN 1 ELSE MaxUpTo(c.vu, h) + 2,
-                     lhpc |-> IF MaxUpTo(c.pu, h) = 0 THEN 1 ELSE MaxUpTo(c.pu, h) + 1]
+                     lhvc |-> IF MaxUpTo(c, c.vu, h) = 0 THEN c.ih ELSE MaxUpTo(c, c.vu, h) + 2,
+                     lhpc |-> IF MaxUpTo(c, c.pu, h) = 0 THEN c.ih ELSE MaxUpTo(c, c.pu, h) + 1]
 
 \* ----------------------------------------------------------------------------- journal
 JE(t, h, i) == [t |-> t, h |-> h, i |-> i]
@@ -80,7 +89,10 @@ JE(t, h, i) == [t |-> t, h |-> h, i |-> i]
 \*   ch: last committed height     open: height of the block begun and not committed (0 none)
 \*   nd: txs delivered in it       ended: EndBlock seen      inited: InitChain seen
 \*   crashed: the node crashed since that block was begun (its segment may not be continued)
-MonInit == [ch |-> 0, open |-> 0, nd |-> 0, ended |-> FALSE, inited |-> FALSE, crashed |-> FALSE]
+\*   ih: the chain's initial height (the first block the app may be asked to begin)
+MonInitOf(ih) == [ch |-> 0, open |-> 0, nd |-> 0, ended |-> FALSE, inited |-> FALSE, crashed |-> FALSE, ih |-> ih]
+MonInit == MonInitOf(1)
+MonNextH(m) == IF m.ch = 0 THEN m.ih ELSE m.ch + 1
 
 \* class of the violation committed by event e in monitor state m ("" = allowed);
 \* nblk = number of transactions of the block being executed
@@ -91,7 +103,8 @@ MonBad(m, e, nblk) ==
                             ELSE IF m.open # 0 /\ ~m.crashed THEN "initchain_inside_block" ELSE ""
     [] e.t = "Begin"     -> IF ~m.inited THEN "begin_before_initchain"
                             ELSE IF e.h <= m.ch THEN "begin_committed_height"
-                            ELSE IF e.h > m.ch + 1 THEN "begin_skips_height"
+                            ELSE IF e.h < MonNextH(m) THEN "begin_below_initial_height"
+                            ELSE IF e.h > MonNextH(m) THEN "begin_skips_height"
                             ELSE IF m.open # 0 /\ ~m.crashed THEN "begin_inside_open_block" ELSE ""
     [] e.t = "Deliver"   -> IF m.open = 0 \/ e.h # m.open THEN "deliver_outside_block"
                             ELSE IF m.crashed THEN "segment_continued_after_crash"
@@ -115,7 +128,7 @@ MonNext(m, e) ==
     [] e.t = "Begin"     -> [m EXCEPT !.open = e.h, !.nd = 0, !.ended = FALSE, !.crashed = FALSE]
     [] e.t = "Deliver"   -> [m EXCEPT !.nd = m.nd + 1]
     [] e.t = "End"       -> [m EXCEPT !.ended = TRUE]
-    [] e.t = "Commit"    -> [m EXCEPT !.ch = IF m.open # 0 THEN m.open ELSE m.ch + 1, !.open = 0, !.nd = 0,
+    [] e.t = "Commit"    -> [m EXCEPT !.ch = IF m.open # 0 THEN m.open ELSE MonNextH(m), !.open = 0, !.nd = 0,
                                      !.ended = FALSE, !.crashed = FALSE]
     [] OTHER             -> m
 
@@ -126,10 +139,10 @@ JournalBad(c, j, k, m) ==
   ELSE LET b == MonBad(m, j[k], NTxs(c, j[k].h)) IN
        IF b # "" THEN b ELSE JournalBad(c, j, k + 1, MonNext(m, j[k]))
 
-JournalOK(c, j) == JournalBad(c, j, 1, MonInit) = ""
+JournalOK(c, j) == JournalBad(c, j, 1, MonInitOf(c.ih)) = ""
 
 \* ----------------------------------------------------------------------------- initial state
-GenesisState == [h |-> 0, hash |-> Hash0, lhvc |-> 1, lhpc |-> 1]   \* sm.MakeGenesisState
+GenesisStateOf(c) == [h |-> 0, hash |-> Hash0, lhvc |-> c.ih, lhpc |-> c.ih]   \* sm.MakeGenesisState
 
 InitState(c) == [
   cfg       |-> c,
@@ -139,7 +152,7 @@ InitState(c) == [
   bs_w      |-> {},         \* kinds of records already written for block bs_h+1
   \* ---- durable: state store (state/store.go)
   ss_saved  |-> FALSE,      \* stateKey exists
-  ss_st     |-> GenesisState,  \* the saved sm.State: LastBlockHeight, AppHash, LastHeight*Changed
+  ss_st     |-> GenesisStateOf(c),  \* the saved sm.State: LastBlockHeight, AppHash, LastHeight*Changed
   ss_vals   |-> {},         \* validatorsKey:<h>  as <<h, lastHeightChanged>>
   ss_params |-> {},         \* consensusParamsKey:<h> as <<h, lastHeightChanged>>
   ss_abci   |-> {},         \* abciResponsesKey:<h>
@@ -159,8 +172,8 @@ InitState(c) == [
   mode      |-> "none",     \* who runs ApplyBlock: fc (finalizeCommit) | real | mock (Handshake)
   h         |-> 0,          \* block being executed
   i         |-> 0,          \* next tx index
-  st        |-> GenesisState,   \* the sm.State in memory
-  nst       |-> GenesisState,   \* the state returned by updateState (AppHash filled at Commit)
+  st        |-> GenesisStateOf(c),   \* the sm.State in memory
+  nst       |-> GenesisStateOf(c),   \* the state returned by updateState (AppHash filled at Commit)
   resp      |-> [vu |-> FALSE, pu |-> FALSE],   \* ABCIResponses of the block being executed
   hs_app_h  |-> 0,          \* ResponseInfo.LastBlockHeight
   hs_hash   |-> Hash0,      \* appHash variable of Handshake/ReplayBlocks
@@ -195,20 +208,26 @@ HasEnd(w, h) == \E k \in DOMAIN w : w[k].t = "end" /\ w[k].h = h
 FirstEnd(w, h) == CHOOSE k \in DOMAIN w : w[k].t = "end" /\ w[k].h = h /\
                                           \A k2 \in DOMAIN w : (w[k2].t = "end" /\ w[k2].h = h) => k <= k2
 \* after the marker of h-1 the WAL holds this node's own precommit for h: replaying it ends in finalizeCommit
-DecisionInWal(w, h) == HasEnd(w, h - 1) /\
-                       \E k \in DOMAIN w : k > FirstEnd(w, h - 1) /\ w[k].t = "msg" /\ w[k].h = h /\ w[k].k = "precommit"
+\* the #ENDHEIGHT marker catchupReplay(h) looks for: the previous height's, 0 for the chain's first height
+EndBefore(c, h) == IF h = c.ih THEN 0 ELSE h - 1
+DecisionInWal(c, w, h) == HasEnd(w, EndBefore(c, h)) /\
+                       \E k \in DOMAIN w : k > FirstEnd(w, EndBefore(c, h)) /\ w[k].t = "msg" /\ w[k].h = h /\ w[k].k = "precommit"
 
 Fail(s, why) == [s EXCEPT !.pc = "Panic", !.err = why]
 
 \* Handshaker.ReplayBlocks: the outcome table on (store height, store base, state height, app height),
 \* in the order of the code's switch.  It holds for EVERY triple, not only for those a crash of this
 \* node's own pipeline can leave behind (operator restores, lost writes, an app that ran ahead).
-HandshakeCase(storeH, base, stateH, appH) ==
+\* ih = genesis InitialHeight.  A chain that starts above 1 has no blocks below ih: until its first
+\* block is applied (state.LastBlockHeight = 0) the state counts as "at ih - 1" for the store/state/app
+\* comparisons (Weak_NoInitialHeightBase: the raw 0 is compared, as the code did).
+HandshakeCase(ih, storeH, base, stateH0, appH) ==
+  LET stateH == IF stateH0 = 0 /\ ~Weak_NoInitialHeightBase THEN ih - 1 ELSE stateH0 IN
   IF storeH = 0 THEN                                       \* nothing to replay: the app hash is compared ...
-       IF appH > stateH /\ ~Weak_EmptyStoreAcceptsAppAhead
+       IF appH > stateH0 /\ ~Weak_EmptyStoreAcceptsAppAhead
        THEN "err_app_too_high"                             \* ... unless the app knows blocks this node does not
        ELSE "store_empty"
-  ELSE IF appH = 0 /\ 1 < base THEN "err_app_too_low"      \* ErrAppBlockHeightTooLow
+  ELSE IF appH = 0 /\ ih < base THEN "err_app_too_low"     \* ErrAppBlockHeightTooLow
   ELSE IF appH > 0 /\ appH < base - 1 THEN "err_app_too_low"
   ELSE IF storeH < appH /\ ~Weak_HandshakeAcceptsAppAhead THEN "err_app_too_high"   \* ErrAppBlockHeightTooHigh
   ELSE IF storeH < stateH THEN "panic_state_ahead_of_store"
@@ -254,7 +273,7 @@ UpdateState(s) ==
    lhpc |-> IF s.resp.pu THEN s.h + 1 ELSE s.st.lhpc]
 
 \* validateBlock as far as this model can see it: height and AppHash of the header
-BlockValid(s, h) == h = s.st.h + 1 /\ HashAfter(s.cfg, h - 1) = s.st.hash
+BlockValid(s, h) == h = NextH(s.cfg, s.st.h) /\ HashAfter(s.cfg, h - 1) = s.st.hash
 
 \* ----------------------------------------------------------------------------- the program
 \* Silent steps (pure computation / reads) are actions too; the trace spec closes over them.
@@ -266,7 +285,7 @@ Do(s) ==
   CASE
   \* ======================================================================= restart (node.NewNode)
      s.pc = "R_LoadState" ->          \* stateStore.LoadFromDBOrGenesisDoc
-       [s EXCEPT !.st = IF s.ss_saved THEN s.ss_st ELSE GenesisState, !.pc = "HS_Info"]
+       [s EXCEPT !.st = IF s.ss_saved THEN s.ss_st ELSE GenesisStateOf(c), !.pc = "HS_Info"]
   \* ----------------------------------------------------------------------- Handshaker.Handshake
   [] s.pc = "HS_Info" ->              \* proxyApp.Query().InfoSync
        [s EXCEPT !.hs_app_h = s.app_h, !.hs_hash = s.app_hash, !.hs_ec = Hash0, !.hs_ecset = FALSE,
@@ -275,16 +294,16 @@ Do(s) ==
        [s EXCEPT !.journal = J(s, "InitChain", 0, 0), !.hs_hash = Hash0,
                  !.pc = IF s.st.h = 0 THEN "HS_SaveGenVals1" ELSE "HS_Cases"]
   [] s.pc = "HS_SaveGenVals1" ->      \* stateStore.Save(genesis state): validatorsKey:1
-       [s EXCEPT !.ss_vals = Put(s.ss_vals, 1, 1), !.pc = "HS_SaveGenVals2"]
+       [s EXCEPT !.ss_vals = Put(s.ss_vals, c.ih, c.ih), !.pc = "HS_SaveGenVals2"]
   [] s.pc = "HS_SaveGenVals2" ->      \*   validatorsKey:2 (pointer to 1)
-       [s EXCEPT !.ss_vals = Put(s.ss_vals, 2, s.st.lhvc), !.pc = "HS_SaveGenParams"]
+       [s EXCEPT !.ss_vals = Put(s.ss_vals, c.ih + 1, s.st.lhvc), !.pc = "HS_SaveGenParams"]
   [] s.pc = "HS_SaveGenParams" ->     \*   consensusParamsKey:1
-       [s EXCEPT !.ss_params = Put(s.ss_params, 1, s.st.lhpc), !.pc = "HS_SaveGenState"]
+       [s EXCEPT !.ss_params = Put(s.ss_params, c.ih, s.st.lhpc), !.pc = "HS_SaveGenState"]
   [] s.pc = "HS_SaveGenState" ->      \*   stateKey (SetSync)
        [s EXCEPT !.ss_saved = TRUE, !.ss_st = s.st, !.pc = "HS_Cases"]
   [] s.pc = "HS_Cases" ->             \* ReplayBlocks: the case analysis on (app, store, state) heights
        LET storeH == s.bs_h  stateH == s.st.h  appH == s.hs_app_h
-           case == HandshakeCase(storeH, s.bs_base, stateH, appH) IN
+           case == HandshakeCase(c.ih, storeH, s.bs_base, stateH, appH) IN
        (CASE case = "store_empty"       -> [s EXCEPT !.pc = "HS_AssertDone", !.hs_final = "none"]
          [] case = "err_app_too_low"   -> HsErr(s, "app block height too low")
          [] case = "err_app_too_high"  -> HsErr(s, "app block height too high")
@@ -292,10 +311,10 @@ Do(s) ==
          [] case = "panic_store_two_ahead_of_state" -> Fail(s, "StoreBlockHeight > StateBlockHeight + 1")
          [] case = "uncovered"         -> Fail(s, "uncovered case")
          [] case = "replay_app_behind" ->           \* replayBlocks(mutateState = false)
-              [s EXCEPT !.h = appH + 1, !.hs_to = storeH, !.hs_final = "none", !.pc = "EC_Next"]
+              [s EXCEPT !.h = NextH(c, appH), !.hs_to = storeH, !.hs_final = "none", !.pc = "EC_Next"]
          [] case = "synced"            -> [s EXCEPT !.hs_final = "none", !.pc = "HS_AssertDone"]
          [] case = "replay_app_behind_then_last" -> \* replayBlocks(mutateState = true)
-              [s EXCEPT !.h = appH + 1, !.hs_to = storeH - 1, !.hs_final = "real", !.pc = "EC_Next"]
+              [s EXCEPT !.h = NextH(c, appH), !.hs_to = storeH - 1, !.hs_final = "real", !.pc = "EC_Next"]
          [] case = "replay_last_real"  -> [s EXCEPT !.h = storeH, !.hs_final = "real", !.pc = "RB_Start"]
          [] case = "replay_last_mock"  ->           \* Commit ran, state not saved -> mock app fed with the saved responses
               IF Weak_HandshakeReplaysCommitted
@@ -312,7 +331,7 @@ Do(s) ==
             THEN Fail(s, "block.AppHash does not match AppHash after replay")   \* assertAppHashEqualsOneFromBlock
             ELSE [s EXCEPT !.mode = "ec", !.i = 0, !.pc = "EC_Begin"]
   [] s.pc = "EC_Begin" ->
-       IF s.h > 1 /\ ~ValsLoadable(s, s.h - 1) THEN Fail(s, "LoadValidators failed")
+       IF s.h > c.ih /\ ~ValsLoadable(s, s.h - 1) THEN Fail(s, "LoadValidators failed")
        ELSE [s EXCEPT !.journal = J(s, "Begin", s.h, 0), !.app_open = [h |-> s.h, nd |-> 0, ended |-> FALSE],
                       !.pc = IF NTxs(c, s.h) > 0 THEN "EC_Deliver" ELSE "EC_End"]
   [] s.pc = "EC_Deliver" ->
@@ -322,7 +341,7 @@ Do(s) ==
        [s EXCEPT !.journal = J(s, "End", s.h, 0), !.app_open.ended = TRUE, !.pc = "EC_Commit"]
   [] s.pc = "EC_Commit" ->
        LET nh == NextHash(c, s.app_hash, s.app_open.nd) IN
-       [s EXCEPT !.journal = J(s, "Commit", s.app_open.h, 0), !.app_h = s.app_h + 1, !.app_hash = nh,
+       [s EXCEPT !.journal = J(s, "Commit", s.app_open.h, 0), !.app_h = NextH(c, s.app_h), !.app_hash = nh,
                  !.app_open = [h |-> 0, nd |-> 0, ended |-> FALSE], !.hs_ec = nh, !.hs_ecset = TRUE,
                  !.h = s.h + 1, !.i = 0, !.pc = "EC_Next"]
   \* ----------------------------------------------------------------------- replayBlock: ApplyBlock during Handshake
@@ -335,18 +354,18 @@ Do(s) ==
   [] s.pc = "HS_Done" ->              \* Handshake returned nil
        [s EXCEPT !.mode = "none", !.pc = "R_Reload"]
   [] s.pc = "R_Reload" ->             \* state = stateStore.Load()
-       [s EXCEPT !.st = IF s.ss_saved THEN s.ss_st ELSE GenesisState, !.pc = "R_NewState"]
+       [s EXCEPT !.st = IF s.ss_saved THEN s.ss_st ELSE GenesisStateOf(c), !.pc = "R_NewState"]
   [] s.pc = "R_NewState" ->           \* NewState: reconstructLastCommit needs the seen commit of state.LastBlockHeight
        IF s.st.h > 0 /\ (s.st.h > s.bs_h \/ s.st.h < s.bs_base)
        THEN Fail(s, "failed to reconstruct last commit")
-       ELSE [s EXCEPT !.cs_h = s.st.h + 1, !.cs_n = 0, !.pc = "R_Catchup"]
+       ELSE [s EXCEPT !.cs_h = NextH(c, s.st.h), !.cs_n = 0, !.pc = "R_Catchup"]
   [] s.pc = "R_Catchup" ->            \* catchupReplay(cs.Height); errors are logged and the node starts anyway
        IF HasEnd(s.wal, s.cs_h) THEN Fresh([s EXCEPT !.cu = "wal should not contain #ENDHEIGHT"])
-       ELSE IF ~HasEnd(s.wal, s.cs_h - 1)
-            THEN IF ~Weak_NoEndHeightRepair /\ s.cs_h > 1 /\ s.st.h = s.cs_h - 1 /\ s.bs_h >= s.cs_h - 1
+       ELSE IF ~HasEnd(s.wal, EndBefore(c, s.cs_h))
+            THEN IF ~Weak_NoEndHeightRepair /\ EndBefore(c, s.cs_h) > 0 /\ s.st.h = s.cs_h - 1 /\ s.bs_h >= s.cs_h - 1
                  THEN [s EXCEPT !.pc = "R_RepairEndHeight"]
                  ELSE Fresh([s EXCEPT !.cu = "WAL does not contain #ENDHEIGHT"])
-       ELSE IF DecisionInWal(s.wal, s.cs_h) THEN [s EXCEPT !.cu = "", !.cs_n = 2, !.pc = "CS"]
+       ELSE IF DecisionInWal(c, s.wal, s.cs_h) THEN [s EXCEPT !.cu = "", !.cs_n = 2, !.pc = "CS"]
        ELSE [s EXCEPT !.cu = "", !.pc = "CS"]      \* what the WAL holds of cs_h is replayed, then the round goes on
   [] s.pc = "R_RepairEndHeight" ->    \* the block of cs_h-1 is committed (Handshake finished it) but the crash fell between
                                       \* SaveBlock and the #ENDHEIGHT write: write the marker now, before anything of cs_h
@@ -367,7 +386,7 @@ Do(s) ==
                            !.flushed = FALSE, !.committed = FALSE] IN
        \* the block was built by this node on its own state (header.AppHash = state.AppHash): only the
        \* height can be off
-       IF s1.h # s1.st.h + 1 THEN Fail(s1, "+2/3 committed an invalid block")
+       IF s1.h # NextH(c, s1.st.h) THEN Fail(s1, "+2/3 committed an invalid block")
        ELSE IF Weak_EndHeightBeforeSaveBlock THEN [s1 EXCEPT !.pc = "FC_WalEndHeight"]
        ELSE IF s1.bs_h < s1.h THEN [s1 EXCEPT !.pc = "FC_BSPart"] ELSE [s1 EXCEPT !.pc = "FC_WalEndHeight"]
   [] s.pc = "FC_BSPart"   -> [s EXCEPT !.bs_w = s.bs_w \cup {"part"},   !.pc = "FC_BSMeta"]    \* P:<h>:<i>
@@ -384,7 +403,7 @@ Do(s) ==
   \* ======================================================================= BlockExecutor.ApplyBlock (mode fc | real | mock)
   [] s.pc = "AB_Start" -> [s EXCEPT !.i = 0, !.pc = "AB_Begin"]
   [] s.pc = "AB_Begin" ->             \* execBlockOnProxyApp: getBeginBlockValidatorInfo + BeginBlockSync
-       IF s.h > 1 /\ ~ValsLoadable(s, s.h - 1) THEN Fail(s, "LoadValidators failed")
+       IF s.h > c.ih /\ ~ValsLoadable(s, s.h - 1) THEN Fail(s, "LoadValidators failed")
        ELSE LET s1 == [s EXCEPT !.pc = IF NTxs(c, s.h) > 0 THEN "AB_Deliver" ELSE "AB_End"] IN
             IF OnApp(s) THEN [s1 EXCEPT !.journal = J(s, "Begin", s.h, 0),
                                         !.app_open = [h |-> s.h, nd |-> 0, ended |-> FALSE]]
@@ -414,7 +433,7 @@ Do(s) ==
                            !.retain = IF onapp /\ s.mode = "fc" THEN Retain(c, s.h) ELSE 0,
                            !.pc = IF s.mode = "fc" THEN "AB_MempoolUpdate"
                                   ELSE IF Weak_SaveStateBeforeAppCommit THEN "AB_Finish" ELSE "AB_SaveVals"] IN
-       IF onapp THEN [s1 EXCEPT !.journal = J(s, "Commit", s.app_open.h, 0), !.app_h = s.app_h + 1, !.app_hash = nh,
+       IF onapp THEN [s1 EXCEPT !.journal = J(s, "Commit", s.app_open.h, 0), !.app_h = NextH(c, s.app_h), !.app_hash = nh,
                                 !.app_open = [h |-> 0, nd |-> 0, ended |-> FALSE]]
        ELSE s1
   [] s.pc = "AB_MempoolUpdate" ->     \*   mempool.Update(height, txs, responses, pre, post)
@@ -469,7 +488,7 @@ AppSetOf(s, newh) ==
   IF newh = s.app_h THEN s
   ELSE [s EXCEPT !.app_h = newh,
                  !.app_hash = IF newh < s.app_h THEN HashAfter(s.cfg, newh)
-                              ELSE [c |-> IF s.cfg.hashc THEN newh ELSE 0, t |-> s.app_hash.t],   \* empty blocks of its own
+                              ELSE [c |-> IF s.cfg.hashc THEN Commits(s.cfg, newh) ELSE 0, t |-> s.app_hash.t],   \* empty blocks of its own
                  !.app_open = [h |-> 0, nd |-> 0, ended |-> FALSE],
                  !.journal = Append(s.journal, JE("Rollback", newh, 0)),
                  !.rolled = TRUE, !.tampered = s.tampered \/ newh > s.app_h]
@@ -528,8 +547,8 @@ HeightsAgreeAt(s) ==
   s.pc = "HS_Done" => /\ s.app_h = s.ss_st.h /\ s.bs_h = s.ss_st.h
                       /\ s.app_hash = s.ss_st.hash
 CursorsWithinOneAt(s) == \/ s.tampered
-                         \/ /\ s.bs_h \in {s.ss_st.h, s.ss_st.h + 1}
-                            /\ s.app_h <= s.ss_st.h + 1
+                         \/ /\ s.bs_h \in {s.ss_st.h, NextH(s.cfg, s.ss_st.h)}
+                            /\ s.app_h <= NextH(s.cfg, s.ss_st.h)
                             /\ (~s.rolled => s.app_h >= s.ss_st.h)
                             /\ s.app_h <= s.bs_h
 WalEndImpliesStoredAt(s) == \A k \in DOMAIN s.wal : s.wal[k].t = "end" => s.wal[k].h <= s.bs_h
